@@ -231,6 +231,17 @@ def _(a, T):
     return (calc.calculate_checksum(bits), calc.calculate_checksum(bits))
 
 
+@entry("crc.custom_configuration", "crc", dict(cfg=Choice(CRC_CFGS), init=Int(0, 127), xor=Int(0, 127), rin=Flag(), rout=Flag(), table=Flag(), bits=BitsVar(0, 120)),
+       doc="BitCrcCalculator over a caller-made BitCrcConfiguration (init / final xor / reverse_input_bytes / reverse_output_bytes)", ncanon=4)
+def _(a, T):
+    from okdmr.dmrlib.etsi.crc import crc
+
+    base = getattr(crc, a["cfg"]).ETSI_DMR.value
+    cfg = crc.BitCrcConfiguration(polynomial=base.polynomial, width_bits=base.width_bits, init_value=a["init"], final_xor_value=a["xor"],
+                                  reverse_input_bytes=a["rin"], reverse_output_bytes=a["rout"])
+    return crc.BitCrcCalculator(cfg, table_based=a["table"]).calculate_checksum(T.bits(a["bits"]))
+
+
 @entry("crc.shared_calculator", "crc", dict(which=Choice(["CRC8", "CRC9", "CRC16", "CRC32"]), bits=BitsVar(0, 120), expect=Int(0, 0xFFFF)),
        doc="calculate_checksum / verify_checksum on the class-level calculator the front ends share")
 def _(a, T):
@@ -252,7 +263,7 @@ def _(a, T):
     return (ups, reg.digest(), reg.reverse())
 
 
-@entry("crc.lookup_table", "crc", dict(cfg=Choice(CRC_CFGS)), doc="the lru_cache'd lookup table of a public configuration", ncanon=2)
+@entry("crc.lookup_table", "crc", dict(cfg=Choice(CRC_CFGS)), doc="the lru_cache'd lookup table of a public configuration", ncanon=0, canon=[{"cfg": c} for c in CRC_CFGS])
 def _(a, T):
     from okdmr.dmrlib.etsi.crc import crc
 
@@ -1103,7 +1114,8 @@ RULE = (
     "case = history of 1..12 calls; a call is {e: catalogue entry id, a: plain-JSON arguments (hex for bytes, '0101' for bits, ints)}; the "
     "argument objects are built inside the forked child.  Hypothesis draws histories of seven kinds (random mix; calls of one group = module family; "
     "one entry with different arguments/lengths; one entry with one argument changed per step; curated (writer, reader) pairs with noise in between; a history whose last call repeats an earlier "
-    "one; constructors with default arguments mixed with parsers) plus the complete set of ordered pairs of canonical calls (pairs sub-check).  "
+    "one; constructors with default arguments mixed with parsers; half of the histories are followed by a fixed suffix of 'state probe' calls that dump the cached CRC "
+    "tables, the LRRP token tables and default-argument objects) plus the complete set of ordered pairs of canonical calls (pairs sub-check).  "
     "Non-trivial: >= 2 calls of the same group in one history (the later one is compared against its run in a fresh state); distinct by hash of the "
     "history.  Clock sub-check: the same call lists evaluated in two fresh interpreters (clock pinned 400 days apart, different random streams)."
 )
@@ -1177,6 +1189,8 @@ def _check_catalogue_call(c):
 def oracle_history(case):
     """case = {calls: [{e, a}, ...], kind?}.  Child A runs the history, child B_i runs call i alone."""
     calls = case["calls"]
+    if not calls:
+        return
     for c in calls:
         _check_catalogue_call(c)
     import_library()
@@ -1286,6 +1300,21 @@ DEFAULT_ENTRIES = ["burst.new_default", "service_options.new_default", "csbk.new
                    "hrnp.new_default", "hstrp_options.from_bytes", "rcp.status_change_request"]
 
 
+# state probes: calls whose result is a dump of shared state (cached tables, token tables, default-argument objects); appended to
+# half of the generated histories (their fresh-state observations are cached, so they cost no extra child)
+PROBES = (
+    [{"e": "crc.lookup_table", "a": {"cfg": c}} for c in CRC_CFGS]
+    + [{"e": "mbxml.tables", "a": {"doc": d}} for d in ("LRRP_ImmediateLocationRequest_NCDT", "LRRP_ImmediateLocationReport_NCDT")]
+    + [{"e": "burst.new_default", "a": {}},
+       {"e": "rcp.new_default", "a": {"opcode": "StatusChangeNotificationRequest", "reliable": False}},
+       {"e": "csbk.new_default", "a": {"csbko": "AnnouncementPDUsWithoutResponse", "src": 1, "dst": 2}},
+       {"e": "data_header.new_default", "a": {"dpf": "ShortDataDefined", "src": 1, "dst": 2, "ab": 1}},
+       {"e": "service_options.new_default", "a": {"prio": 0, "emergency": False}},
+       {"e": "hstrp_options.from_bytes", "a": {"data": ""}},
+       {"e": "hrnp.new_default", "a": {"pn": 0}}]
+)
+
+
 def _groups():
     g = {}
     for e in sorted(CATALOGUE):
@@ -1302,7 +1331,7 @@ def _self_check():
             raise HarnessError(f"DEFAULT_ENTRIES names unknown entry {e}")
 
 
-def history_strategy(max_len: int = 12):
+def history_strategy(max_len: int = 12, probes: bool = True):
     from hypothesis import strategies as st
 
     ids = sorted(CATALOGUE)
@@ -1313,7 +1342,8 @@ def history_strategy(max_len: int = 12):
     default_call = st.one_of([call_of[e] for e in DEFAULT_ENTRIES])
 
     def kind(name, s):
-        return s.map(lambda calls: {"kind": name, "calls": calls[:max_len]})
+        return st.tuples(s, st.booleans() if probes else st.just(False)).map(
+            lambda t: {"kind": name + ("+probes" if t[1] else ""), "calls": t[0][:max_len] + (list(PROBES) if t[1] else [])})
 
     def perturbed(e):
         """one entry: a base call, then calls that differ from their predecessor in exactly one argument"""
@@ -1358,7 +1388,12 @@ def _record(sub):
     def rec(case, t: Tally):
         calls = case["calls"]
         n = len(calls)
-        t.case(sub, key=case, nontrivial=_same_group_twice(calls), cls="kind=" + case.get("kind", "?"))
+        kind = case.get("kind", "?")
+        if kind.endswith("+probes"):
+            calls = calls[: -len(PROBES)]
+            n = len(calls)
+            t.cls(sub, "with_state_probes")
+        t.case(sub, key=case, nontrivial=_same_group_twice(calls), cls="kind=" + kind.replace("+probes", ""))
         t.cls(sub, "len=" + ("1" if n == 1 else "2-3" if n <= 3 else "4-7" if n <= 7 else "8-12"))
         t.cls(sub, "calls_total", n)
         t.cls(sub, "calls_raised", _LAST.get("raised", 0))
@@ -1380,7 +1415,7 @@ def drv_history(ctx: Ctx, sub: SubCheck):
     strat = history_strategy()
 
     def work(shard, t: Tally):
-        ctx.hypothesis(sub.name, strat, oracle_history, ctx.pick(40, 500), tally=t, shard=shard, record=_record(sub.name))
+        ctx.hypothesis(sub.name, strat, oracle_history, ctx.pick(40, 1200), tally=t, shard=shard, record=_record(sub.name))
 
     ctx.shards(work, list(range(16)))
     ctx.tally.extra["catalogue_entries"] = len(CATALOGUE)
@@ -1470,7 +1505,7 @@ def drv_pairs(ctx: Ctx, sub: SubCheck):
 def drv_clock(ctx: Ctx, sub: SubCheck):
     _self_check()
     _close_zygotes()  # a pair started by regression / witness replays in this process must not be inherited by the workers
-    strat = history_strategy(max_len=5)
+    strat = history_strategy(max_len=5, probes=False)
     full = _canon()
 
     def work(shard, t: Tally):
@@ -1488,7 +1523,7 @@ def drv_clock(ctx: Ctx, sub: SubCheck):
                 for e in _LAST.get("nonparsing_differences", []):
                     tt.cls(sub.name, "nonparsing_call_depends_on_clock_or_randomness:" + e)
 
-            ctx.hypothesis(sub.name, strat, oracle_clock, ctx.pick(60, 800), tally=t, shard=shard, record=rec)
+            ctx.hypothesis(sub.name, strat, oracle_clock, ctx.pick(60, 1500), tally=t, shard=shard, record=rec)
         finally:
             _close_zygotes()
 
@@ -1505,18 +1540,4 @@ SUBCHECKS = [
 ]
 
 
-def _pred_get_token_pollution(case, fail) -> bool:
-    """LRRP.get_token with a non-default attribute replaces the attribute id by a token object inside the *class-level* token
-    definition (shallow copy of the definition shares its `attributes` list); later MBXML/LRRP calls see the altered table."""
-    if fail.clause != "result_independent_of_history" or fail.klass != "writer=lrrp.get_token":
-        return False
-    obs = fail.observed
-    j = obs.get("culprit_index")
-    calls = case["calls"]
-    if j is None or calls[j]["e"] not in ("lrrp.get_token", "lrrp.build"):
-        return False
-    toks = [calls[j]["a"]["tok"]] if calls[j]["e"] == "lrrp.get_token" else calls[j]["a"]["toks"]
-    return any(t["attributes"] for t in toks) and CATALOGUE[obs["entry"]].group == "mbxml"
-
-
-PREDICATES = {"get_token_attribute_pollution": _pred_get_token_pollution}
+PREDICATES = {}
